@@ -89,13 +89,13 @@ class DuctRecorder:
                 own = rec.own_bypass_htc(self)
                 if own is not None:
                     h_byp = own
+            tg_, hg_ = rec.gap_truth(self, np.array(t_gap, copy=True),
+                                     np.array(htc_gap, copy=True))
             try:
                 return o_rr(self, p_duct, t_gap, htc_gap, adiabatic)
             finally:
                 rec.rodded_event(self, pre, avg_mw, h_int, h_byp, p_given,
-                                 np.array(t_gap, copy=True),
-                                 np.array(htc_gap, copy=True),
-                                 rec.truth(adiabatic))
+                                 tg_, hg_, rec.truth(adiabatic))
 
         def sn_calc(self, temp_gap, htc_gap, adiabatic=False):
             pre = {k: np.array(v, copy=True) for k, v in self.temp.items()}
@@ -105,12 +105,12 @@ class DuctRecorder:
                 own = rec.own_unrodded_htc(self, pre['coolant_int'])
                 if own is not None:
                     hh = own
+            tg_, hg_ = rec.gap_truth(self, np.array(temp_gap, copy=True),
+                                     np.array(htc_gap, copy=True))
             try:
                 return o_sn(self, temp_gap, htc_gap, adiabatic)
             finally:
-                rec.unrodded_event(self, pre, avg_mw, hh,
-                                   np.array(temp_gap, copy=True),
-                                   np.array(htc_gap, copy=True),
+                rec.unrodded_event(self, pre, avg_mw, hh, tg_, hg_,
                                    rec.truth(adiabatic))
         RR._calc_duct_temp = rr_calc
         SN._calc_duct_temp = sn_calc
@@ -207,6 +207,37 @@ class DuctRecorder:
     # whether the outer boundary is adiabatic: from the input (set by the
     # driver of a recorded sweep) if known, else the flag the routine was given
     expect_adiabatic = None
+    reactor = None
+
+    def watch_reactor(self, r):
+        """The outer boundary of every wall facing the inter-assembly gap is
+        then taken from the core's own gap cells (film-weighted average of
+        the cells a duct cell faces) instead of from the arrays handed to
+        the wall solve."""
+        self.reactor = r
+        self._owner = {}
+        for ai, a in enumerate(r.assemblies):
+            for reg in a.region:
+                self._owner[id(reg)] = ai
+
+    def gap_truth(self, reg, t_gap, htc_gap):
+        r = self.reactor
+        if r is None or r.core.model is None:
+            return t_gap, htc_gap
+        ai = self._owner.get(id(reg))
+        if ai is None:
+            return t_gap, htc_gap
+        try:
+            hk = np.asarray(r.core.adjacent_coolant_gap_htc(ai), dtype=float)
+            tk = np.asarray(r.core.adjacent_coolant_gap_temp(ai), dtype=float)
+            m = np.asarray(reg._map['gap2duct'], dtype=float)
+            h = m @ hk
+            t = (m @ (hk * tk)) / h
+        except BaseException:
+            return t_gap, htc_gap
+        if np.shape(t) != np.shape(t_gap):
+            return t_gap, htc_gap
+        return t, h
 
     def truth(self, flag):
         return bool(flag) if self.expect_adiabatic is None \
